@@ -92,6 +92,15 @@ def run(out, tier):
             p = os.path.join(common.REPO, "tests", name)
             if os.path.exists(p):
                 docs.append((open(p).read(), {}))
+        # documents chosen for the state they could leave behind in a long-lived process
+        docs.append(('<svg:svg xmlns:svg="http://www.w3.org/2000/svg" xmlns="http://www.w3.org/1999/xhtml" '
+                     'viewBox="0 0 16 16"><svg:rect x="1" y="1" width="6" height="5" fill="red"/></svg:svg>', {}))
+        docs.append(('<svg xmlns="http://www.w3.org/2000/svg" viewBox="0 0 16 16"><clipPath id="c" clip-rule="evenodd">'
+                     '<path d="M2,2 h10 v10 h-10 z M5,5 h4 v4 h-4 z"/></clipPath>'
+                     '<rect width="16" height="16" clip-path="url(#c)"/></svg>', {}))
+        docs.append(('<svg xmlns="http://www.w3.org/2000/svg" viewBox="0 0 16 16"><clipPath id="c">'
+                     '<path d="M2,2 h10 v10 h-10 z M5,5 h4 v4 h-4 z"/></clipPath>'
+                     '<rect width="16" height="16" clip-path="url(#c)"/></svg>', {}))
         good = len(docs)
         # conversions that raise, to be interleaved
         docs.append(('<svg xmlns="http://www.w3.org/2000/svg"><filter id="f"/><rect width="2" height="2" filter="url(#f)"/></svg>', {}))
